@@ -25,10 +25,17 @@ Lemma gen_scale (a : pt) (t : R) : v3_scale a t = smul t a.
 Proof. unfold v3_scale, smul. carrier_R. f_equal; ring. Qed.
 
 (* ================================================================ sphere *)
+(* reduce a generated term (and the specification side) to real arithmetic on coordinates: every vector helper of
+   the Go source unfolds to the same coordinate arithmetic, so lemmas proved this way do not depend on which helper
+   (Distance / Sub+Length / Dot / LengthSquared ...) the source uses *)
+Ltac gen_coords :=
+  cbv beta iota zeta delta -[Rplus Rmult Rminus Ropp Rdiv Rinv sqrt Rabs Rmax Rmin Rltb Rleb Reqb IZR Rlt Rle
+                             v3x v3y v3z v2x v2y];
+  cbn [v3x v3y v3z v2x v2y].
+
 Lemma Sphere_eq c r p : Sphere c r p = dist p c - r.
 Proof.
-  unfold Sphere. cbv zeta. rewrite gen_distance. carrier_R.
-  first [reflexivity | rewrite (dist_sym c p); reflexivity].
+  gen_coords. f_equal. f_equal. ring.
 Qed.
 
 Theorem sphere_sign c r : sdf_sign (Sphere c r) (ball_int c r) (sphere_surf c r).
